@@ -1,7 +1,7 @@
 """C09 - ENABLE_PEDANTIC switch.  Proof: coq/Props/C09.v over the switch logic, guards and cross reference regenerated
 into Gen/Env.v by translator/t_env.py.  Correspondence stream `env-history`: operation histories (setenv / unsetenv /
-enable_pedantic() / disable_pedantic() / decorate a fresh function or class with one of the seven decorators / call a decorated
-object) run on the real package (harness/w_env.py, in processes started with the variable unset, "0" and "1") and on the model
+enable_pedantic() / disable_pedantic() / decorate a fresh function or class with one of the seven decorators / create a decorator
+object and keep it / apply a kept decorator object to a fresh target / call a decorated object) run on the real package (harness/w_env.py, in processes started with the variable unset, "0" and "1") and on the model
 and the specification inside Coq (Model/EnvEval.v)."""
 import io, json, os, re, tokenize
 from lib import *
@@ -11,13 +11,14 @@ MODEL = ['Model/EnvEval.vo']
 PROPS = 'Props/C09.v'
 PRE = 'From Coq Require Import List ZArith.\nFrom PV Require Import Model.EnvEval.\nImport ListNotations.'
 
-SETENV, UNSETENV, ENABLE, DISABLE, DECORATE, CALL = 0, 1, 2, 3, 4, 5
+SETENV, UNSETENV, ENABLE, DISABLE, DECORATE, CALL, CREATE, APPLY = 0, 1, 2, 3, 4, 5, 6, 7
 UNSET = 5
 DNAMES = ['pedantic', 'pedantic_require_docstring', 'pedantic_class', 'pedantic_class_require_docstring', 'trace_class',
           'timer_class', 'for_all_methods']
 OBS = {0: '-', 1: 'returned the very object, unmodified', 2: 'returned a new/modified object', 3: 'decoration raised',
        4: 'call unchecked (plain)', 5: 'call checked/wrapped', 6: 'switch failed at call time', 7: 'inconsistent probes',
        8: 'harness problem'}
+VALNAME = {0: '"0"', 1: '"1"', 2: '"2"', 3: '""', 4: '"true"', 5: 'unset'}
 TOGGLES = [[SETENV, 0], [SETENV, 1], [UNSETENV], [ENABLE], [DISABLE]]
 
 
@@ -48,32 +49,49 @@ def in_domain_prefix(case):
     return n
 
 
-def features(case):
-    """(decorations, calls, inert-toggle witnesses) - a witness is a call of an object after the tracked value of the
-    variable has changed between enabled and disabled since its decoration"""
+def walk(case):
+    """per op: (op, value of the variable before it, number of decorated objects before it, decorator objects created before
+    it, decorator kind if the op decorates something else None, value of the variable when that decorator object was created)"""
     env = case['init']
-    deco_env = []
-    n_dec = n_call = witnesses = 0
+    n_obj, created = 0, []
     for op in case['ops']:
+        d = c_env = None
         if op[0] == DECORATE:
+            d, c_env = op[1], env
+        elif op[0] == APPLY and op[1] < len(created):
+            d, c_env = created[op[1]]
+        yield op, env, n_obj, len(created), d, c_env
+        if d is not None:
+            n_obj += 1
+        if op[0] == CREATE:
+            created.append((op[1], env))
+        env = env_after(env, op)
+
+
+def features(case):
+    """(decorations, calls, inert-toggle witnesses, split witnesses).  inert-toggle witness: a call of an object after the
+    tracked value of the variable has changed between enabled and disabled since its decoration.  split witness: a decorator
+    object applied after the value changed between enabled and disabled since the object was created"""
+    deco_env = []
+    n_dec = n_call = witnesses = split = 0
+    for op, env, n_obj, n_created, d, c_env in walk(case):
+        if d is not None:
             deco_env.append(env)
             n_dec += 1
+            if (c_env == 0) != (env == 0):
+                split += 1
         elif op[0] == CALL:
             n_call += 1
             if op[1] < len(deco_env) and (deco_env[op[1]] == 0) != (env == 0):
                 witnesses += 1
-        else:
-            env = env_after(env, op)
-    return n_dec, n_call, witnesses
+    return n_dec, n_call, witnesses, split
 
 
 def awkward_ok(case):
     """targets that an *enabled* decorator rejects or cannot check are only meaningful while the variable is "0" """
-    env = case['init']
-    for op in case['ops']:
-        if op[0] == DECORATE and op[2] >= 10 and env != 0:
+    for op, env, n_obj, n_created, d, c_env in walk(case):
+        if d is not None and op[2] >= 10 and env != 0:
             return False
-        env = env_after(env, op)
     return True
 
 
@@ -84,15 +102,29 @@ def rand_decorate(rng, awkward=False):
     return [DECORATE, d, t, u]
 
 
-def gen_history(rng, length, values=(0, 1), awkward_share=0.0):
+def target_for(rng, d, awkward=False):
+    return rng.choice([10, 11, 12]) if awkward else rng.choice([0, 0, 1, 2])
+
+
+def gen_history(rng, length, values=(0, 1), awkward_share=0.0, split_share=0.35):
     init = rng.choice([UNSET, 0, 1] if values == (0, 1) else [UNSET, 0, 1, 2, 3, 4])
-    env, ops, n_obj = init, [], 0
+    env, ops, n_obj, created = init, [], 0, []
     for _ in range(length):
         r = rng.random()
         if r < 0.30 or n_obj == 0 and r < 0.5:
             aw = env == 0 and rng.random() < awkward_share
-            ops.append(rand_decorate(rng, aw))
-            n_obj += 1
+            k = rng.random()
+            if k < split_share and created:
+                j = rng.randrange(len(created))
+                ops.append([APPLY, j, target_for(rng, created[j], aw)])
+                n_obj += 1
+            elif k < 2 * split_share:
+                d = rng.randrange(7)
+                ops.append([CREATE, d, rng.randrange(4)])
+                created.append(d)
+            else:
+                ops.append(rand_decorate(rng, aw))
+                n_obj += 1
         elif r < 0.62 and n_obj:
             # mostly the most recent objects, sometimes any
             i = n_obj - 1 - min(n_obj - 1, int(rng.expovariate(0.8))) if rng.random() < 0.7 else rng.randrange(n_obj)
@@ -123,6 +155,20 @@ def gen_cases(rng, tier, scale):
                         if rng.random() < 0.3:
                             ops += [rng.choice(TOGGLES), [DECORATE, d, t, u], [CALL, 1], [CALL, 0]]
                         cases.append({'stream': 'small-scope', 'proc': proc, 'init': init, 'ops': ops})
+    # 1b. the same with the decorator object created first and applied later: create x toggle x apply, call, toggle, call,
+    #     toggle, apply the same object again
+    for proc in procs:
+        for init in (UNSET, 0, 1):
+            for d in range(7):
+                for a in TOGGLES:
+                    for b in TOGGLES:
+                        if tier == 'quick' and rng.random() > (0.5 if proc == UNSET else 0.17):
+                            continue
+                        t = rng.choice([0, 1, 2])
+                        ops = [[CREATE, d, rng.randrange(4)], a, [APPLY, 0, t], [CALL, 0], b, [CALL, 0]]
+                        if rng.random() < 0.5:
+                            ops += [rng.choice(TOGGLES), [APPLY, 0, rng.choice([0, 1, 2])], [CALL, 1], [CALL, 0]]
+                        cases.append({'stream': 'small-scope-split', 'proc': proc, 'init': init, 'ops': ops})
     n = (500 if tier == 'quick' else 25000) * scale
     max_len = 30 if tier == 'quick' else 200
     # 2. valid: in-domain histories
@@ -132,23 +178,30 @@ def gen_cases(rng, tier, scale):
         c.update(stream='valid', proc=rng.choice(procs))
         cases.append(c)
     # 3. near-miss: a valid history in which one object is decorated, the switch is flipped to the opposite setting right
-    #    after (by each of the available means), and the object is called; and the mirror: flip, then decorate, then call
+    #    after (by each of the available means), and the object is called; the mirror: flip, then decorate, then call; and the
+    #    split form: create the decorator object, flip, apply it, call
     for _ in range(n):
         c = gen_history(rng, rng.choice([2, 4, 8, 16]))
         ops = c['ops']
         pos = rng.randrange(len(ops) + 1)
-        env = c['init']
-        n_obj = 0
-        for op in ops[:pos]:
-            env = env_after(env, op)
-            n_obj += op[0] == DECORATE
+        env, n_obj, n_created = c['init'], 0, 0
+        for k, (op, e, no, nc, d, ce) in enumerate(walk(c)):
+            if k == pos:
+                break
+            env, n_obj, n_created = env_after(e, op), no + (d is not None), nc + (op[0] == CREATE)
         flip = rng.choice([[SETENV, 1], [ENABLE], [UNSETENV]] if env == 0 else [[SETENV, 0], [DISABLE]])
-        if rng.random() < 0.5:
+        r = rng.random()
+        new_deco = 0
+        if r < 0.3:
             ins = [rand_decorate(rng), flip, [CALL, n_obj]]
-        else:
+        elif r < 0.6:
             ins = [flip, rand_decorate(rng), [CALL, n_obj], rng.choice(TOGGLES), [CALL, n_obj]]
-        # later calls refer to the objects by position: shift the references behind the insertion
-        tail = [[CALL, op[1] + 1] if op[0] == CALL and op[1] >= n_obj else op for op in ops[pos:]]
+        else:
+            ins = [[CREATE, rng.randrange(7), rng.randrange(4)], flip, [APPLY, n_created, rng.choice([0, 1, 2])], [CALL, n_obj]]
+            new_deco = 1
+        # later calls/applications refer to objects by position: shift the references behind the insertion
+        tail = [[CALL, op[1] + 1] if op[0] == CALL and op[1] >= n_obj else
+                [APPLY, op[1] + new_deco] + op[2:] if op[0] == APPLY and op[1] >= n_created else op for op in ops[pos:]]
         cases.append({'stream': 'near-miss', 'proc': rng.choice(procs), 'init': c['init'], 'ops': ops[:pos] + ins + tail})
     # 4. malformed: values outside the domain, calls of objects that do not exist, targets that an enabled decorator rejects
     #    (enum, dataclass, non-function, wrong or missing docstring/annotations) while the variable is "0"
@@ -162,7 +215,7 @@ def gen_cases(rng, tier, scale):
             c['stream'] = 'malformed-value'
         else:
             c = gen_history(rng, rng.choice([3, 6, 12]))
-            c['ops'].insert(rng.randrange(len(c['ops']) + 1), [CALL, rng.choice([7, 50, 1000])])
+            c['ops'].insert(rng.randrange(len(c['ops']) + 1), rng.choice([[CALL, rng.choice([7, 50, 1000])], [APPLY, rng.choice([9, 77]), 0]]))
             c['stream'] = 'malformed-index'
         c['proc'] = rng.choice(procs)
         cases.append(c)
@@ -195,14 +248,30 @@ def judge(c, impl, model):
     for k in range(min(dom, len(io_), len(sp))):
         if io_[k] != sp[k]:
             op = c['ops'][k]
-            subject = f'{DNAMES[op[1]]} (target kind {op[2]})' if op[0] == DECORATE else f'object #{op[1]}'
+            info = list(walk(c))[k]
+            subject = f'{DNAMES[op[1]]} (target kind {op[2]})' if op[0] == DECORATE else \
+                f'decorator object #{op[1]} = {DNAMES[info[4]] if info[4] is not None else "?"} created while the variable was ' \
+                f'{VALNAME.get(info[5], info[5])}, applied while it is {VALNAME.get(info[1], info[1])} (target kind {op[2]})' \
+                if op[0] == APPLY else f'creation of a {DNAMES[op[1]]} decorator object' if op[0] == CREATE else f'object #{op[1]}'
             what.append(f'op {k} {subject}: observed "{OBS.get(io_[k], io_[k])}", the statement demands "{OBS.get(sp[k], sp[k])}"'
                         f'{" " + str(impl.get("details", {}).get(str(k), "")) if impl.get("details", {}).get(str(k)) else ""}')
             break
     reads = impl.get('call_reads', [])
     if reads and not what:
         what.append(f'the switch was read while a decorated object was being called (op {reads[0]})')
+    creads = impl.get('create_reads', [])
+    if creads and not what:
+        what.append(f'the switch was read when the decorator object was created, before it was applied to anything (op {creads[0]})')
     return corr, not what, '; '.join(what)
+
+
+def vclass(what):
+    """coarse class of a violation message: which kind of operation, what was observed, what is demanded"""
+    m = re.search(r'observed "([^"]*)", the statement demands "([^"]*)"', what)
+    if not m:
+        return what[:60]
+    kind = 'apply' if 'decorator object #' in what else 'create' if 'creation of' in what else 'call' if ' object #' in what else 'decorate'
+    return f'{kind}: {m.group(1)} / {m.group(2)}'
 
 
 # ---------------------------------------------------------------------------------------------------------------
@@ -210,15 +279,28 @@ def judge(c, impl, model):
 # ---------------------------------------------------------------------------------------------------------------
 def drop_candidates(c):
     ops = c['ops']
+    info = list(walk(c))
     out = []
     for p, op in enumerate(ops):
-        if op[0] == DECORATE:
-            k = sum(1 for o in ops[:p] if o[0] == DECORATE)
+        if info[p][4] is not None:                       # decorates: drop it and the calls of its object, renumber the others
+            k = info[p][2]
             new = []
             for q, o in enumerate(ops):
                 if q == p or (o[0] == CALL and o[1] == k):
                     continue
                 new.append([CALL, o[1] - 1] if o[0] == CALL and o[1] > k else o)
+        elif op[0] == CREATE:                            # drop it and its applications (with their calls), renumber
+            j = info[p][3]
+            gone = {info[q][2] for q, o in enumerate(ops) if o[0] == APPLY and o[1] == j and info[q][4] is not None}
+            new = []
+            for q, o in enumerate(ops):
+                if q == p or (o[0] == APPLY and o[1] == j) or (o[0] == CALL and o[1] in gone):
+                    continue
+                if o[0] == CALL:
+                    o = [CALL, o[1] - sum(1 for g in gone if g < o[1])]
+                elif o[0] == APPLY and o[1] > j:
+                    o = [APPLY, o[1] - 1] + o[2:]
+                new.append(o)
         else:
             new = ops[:p] + ops[p + 1:]
         out.append(dict(c, ops=new))
@@ -243,14 +325,15 @@ def evaluate(ck, cases):
     return impl, model
 
 
-def shrink(ck, c, rounds=12):
+def shrink(ck, c, cls, rounds=12):
+    """the shrunk case must still violate the statement in the same way (same class of message)"""
     for _ in range(rounds):
         cands = drop_candidates(c)
         if not cands:
             break
         impl, model = evaluate(ck, cands)
         failing = [x for x, i, m in zip(cands, impl, model) if i is not None and 'error' not in i and m is not None
-                   and not judge(x, i, m)[1]]
+                   and not judge(x, i, m)[1] and vclass(judge(x, i, m)[2]) == cls]
         if not failing:
             break
         c = min(failing, key=lambda x: (len(x['ops']), x['init'] != UNSET))
@@ -339,10 +422,12 @@ def run(tier, seed, replay=None):
         c.setdefault('stream', 'replay')
     impl, model = evaluate(ck, cases)
     hist = {'streams': {}, 'decorators': {n: 0 for n in DNAMES}, 'targets': {}, 'observations': {}, 'proc_start': {},
-            'lengths': {}, 'toggle_kinds': {}}
+            'lengths': {}, 'toggle_kinds': {}, 'created_decorator_objects': {n: 0 for n in DNAMES},
+            'applied_decorator_objects': {n: 0 for n in DNAMES}, 'split_create_enabled_apply_disabled': 0,
+            'split_create_disabled_apply_enabled': 0}
     disagreements = {}
     max_len = 0
-    n_wit = 0
+    n_wit = n_split = split_cases = 0
     for c, i, m in zip(cases, impl, model):
         st = c['stream']
         hist['streams'][st] = hist['streams'].get(st, 0) + 1
@@ -350,36 +435,53 @@ def run(tier, seed, replay=None):
         b = min(len(c['ops']) // 10 * 10, 200)
         hist['lengths'][f'{b}+'] = hist['lengths'].get(f'{b}+', 0) + 1
         max_len = max(max_len, len(c['ops']))
-        for op in c['ops']:
+        for op, env, n_obj, n_created, d, c_env in walk(c):
             if op[0] == DECORATE:
                 hist['decorators'][DNAMES[op[1]]] += 1
                 hist['targets'][str(op[2])] = hist['targets'].get(str(op[2]), 0) + 1
+            elif op[0] == CREATE:
+                hist['created_decorator_objects'][DNAMES[op[1]]] += 1
+            elif op[0] == APPLY:
+                if d is not None:
+                    hist['applied_decorator_objects'][DNAMES[d]] += 1
+                    hist['targets'][str(op[2])] = hist['targets'].get(str(op[2]), 0) + 1
+                    if (c_env == 0) != (env == 0):
+                        hist['split_create_disabled_apply_enabled' if c_env == 0 else 'split_create_enabled_apply_disabled'] += 1
             elif op[0] != CALL:
                 k = ['setenv', 'unsetenv', 'enable_pedantic()', 'disable_pedantic()'][op[0]]
                 hist['toggle_kinds'][k] = hist['toggle_kinds'].get(k, 0) + 1
         if i and 'obs' in i:
             for o in i['obs']:
                 hist['observations'][OBS.get(o, str(o))] = hist['observations'].get(OBS.get(o, str(o)), 0) + 1
-        n_dec, n_call, wit = features(c)
+        n_dec, n_call, wit, split = features(c)
         n_wit += wit
-        ck.note_case(json.dumps([c['proc'], c['init'], c['ops']]), nontrivial=wit >= 1)
+        n_split += split
+        split_cases += split >= 1
+        ck.note_case(json.dumps([c['proc'], c['init'], c['ops']]), nontrivial=wit >= 1 or split >= 1)
         corr, prop, what = judge(c, i, m)
         if corr and prop:
             ck.traces_validated += 1
         if not prop:
-            ck.violation(what, {k: c[k] for k in ('proc', 'init', 'ops', 'stream')}, stream=c['stream'], extra={'impl': i, 'model': m})
+            ck.violation(what, {k: c[k] for k in ('proc', 'init', 'ops', 'stream')}, stream=c['stream'],
+                         extra={'impl': i, 'model': m, 'class': vclass(what)})
         elif not corr:
             disagreements.setdefault(st, []).append({'case': c, 'impl': i, 'model': split_model(m)[0], 'what': what})
     # smallest first, then shrink the smallest
     ck.violations.sort(key=lambda v: (len(v['case']['ops']), v['case']['init'] != UNSET, v['case']['proc'] != UNSET))
     if ck.violations and replay is None:
-        v = ck.violations[0]
-        small = shrink(ck, dict(v['case']))
-        if len(small['ops']) < len(v['case']['ops']) or small != v['case']:
-            i2, m2 = evaluate(ck, [small])
-            c2, p2, w2 = judge(small, i2[0], m2[0])
-            if not p2:
-                v.update(case=small, what=w2, impl=i2[0], model=m2[0], shrunk_from=len(v['case']['ops']))
+        # shrink the (at most three) violations that ck.finish will report: first of each distinct message class
+        seen = set()
+        for v in ck.violations:
+            key = v['class']
+            if key in seen or len(seen) >= 3:
+                continue
+            seen.add(key)
+            small = shrink(ck, dict(v['case']), key)
+            if small != v['case']:
+                i2, m2 = evaluate(ck, [small])
+                c2, p2, w2 = judge(small, i2[0], m2[0])
+                if not p2 and vclass(w2) == key:
+                    v.update(case=small, what=w2, impl=i2[0], model=m2[0], shrunk_from=len(v['case']['ops']))
     streams = sorted(set(hist['streams']) | set(disagreements))
     for st in (['env-history'] if not streams else streams):
         ds = disagreements.get(st, [])
@@ -388,10 +490,17 @@ def run(tier, seed, replay=None):
                   else f'{hist["streams"].get(st, 0)} histories agree')
     if replay is None:
         share = len(ck.nontrivial) / max(1, ck.evaluations)
-        ck.oblige('generator:non-degenerate', 'correspondence', share >= 0.4 and all(v > 0 for v in hist['decorators'].values()),
-                  f'{share:.2f} of the histories call an object after the switch flipped since its decoration; '
-                  f'decorators {hist["decorators"]}')
-    ck.coverage.update({'distribution': hist, 'max_history_length': max_len, 'inert_toggle_witnesses': n_wit,
+        sshare = split_cases / max(1, ck.evaluations)
+        ck.oblige('generator:non-degenerate', 'correspondence',
+                  share >= 0.4 and sshare >= 0.12 and all(v > 0 for v in hist['decorators'].values())
+                  and all(v > 0 for v in hist['applied_decorator_objects'].values())
+                  and hist['split_create_enabled_apply_disabled'] > 0 and hist['split_create_disabled_apply_enabled'] > 0,
+                  f'{share:.2f} of the histories call an object after the switch flipped since its decoration or apply a decorator '
+                  f'object after the switch flipped since its creation ({sshare:.2f} the latter: '
+                  f'{hist["split_create_enabled_apply_disabled"]} applications created-enabled/applied-disabled, '
+                  f'{hist["split_create_disabled_apply_enabled"]} created-disabled/applied-enabled); decorators {hist["decorators"]}; '
+                  f'applied decorator objects {hist["applied_decorator_objects"]}')
+    ck.coverage.update({'distribution': hist, 'max_history_length': max_len, 'inert_toggle_witnesses': n_wit, 'create_toggle_apply_witnesses': n_split,
                         'disagreements': sum(len(v) for v in disagreements.values())})
     zipped = list(zip(cases, impl, model))
     ck.samples = [{'case': c, 'impl': i, 'model_then_spec': m} for c, i, m in zipped[:2] + zipped[len(zipped) // 2:len(zipped) // 2 + 2] + zipped[-2:]]
@@ -399,14 +508,19 @@ def run(tier, seed, replay=None):
         'object identity is observed as `result is argument` plus identity of every entry of the object\'s own __dict__ before/after',
         '"checks" is observed per decorator: pedantic flavours raise a PedanticException on a positional and on an ill-typed call, '
         'trace/timer print their line, for_all_methods(custom) runs the custom wrapper; a conforming keyword call returns in all cases',
-        'the worker additionally counts reads of os.environ["ENABLE_PEDANTIC"] while a decorated object is being called (must be 0)',
+        'the worker additionally counts reads of os.environ["ENABLE_PEDANTIC"] while a decorated object is being called and while a '
+        'decorator object is being created without being applied (both must be 0)',
+        'decorator objects: for_all_methods(inner), pedantic(), pedantic(require_docstring=False), pedantic_require_docstring(); for '
+        'pedantic_class / pedantic_class_require_docstring / trace_class / timer_class, which cannot be split, the function object itself',
         'single-threaded histories; values of the variable outside {unset,"0","1"} are compared with the model only (outside the statement)']
     return ck.finish(
         rule='env-history: exhaustive small scope (start value of the process x initial value x toggle x 7 decorators x toggle, called before '
-             'and after) + random in-domain histories + near-miss (flip the switch right after / right before a decoration, by every means) + '
+             'and after; the same with the decorator object created, the switch toggled, and the object applied - twice) + random '
+             'in-domain histories (decorate in one go / create / apply / call / toggle) + near-miss (flip the switch right after / right '
+             'before a decoration, or between creation and application of a decorator object, by every means) + '
              'malformed (values outside the domain, dangling indices, targets an enabled decorator rejects while disabled); '
              'distinct = (process start value, initial value, operations); non-trivial = an object is called after the switch changed '
-             'between enabled and disabled since its decoration',
+             'between enabled and disabled since its decoration, or a decorator object is applied after such a change since its creation',
         checker_cmd='make -C coq Props/C09.vo && coqc -Q coq PV coq/Props/C09.v (Print Assumptions under every theorem)',
         trusted_base=['Coq 8.16.1 kernel (coqc; vm_compute for model evaluation and `good`)',
                       'translator/t_env.py (Python ast -> Gen/Env.v: env_var_logic.py, guards, shortcuts, cross reference)',
